@@ -3,6 +3,7 @@ package main
 import (
 	"bytes"
 	"encoding/json"
+	"flag"
 	"fmt"
 	"io"
 	"os"
@@ -256,6 +257,12 @@ func c06Child() {
 	unmarshal(raw, &op)
 	allFrontEnds()
 	dir := os.Getenv("ZVH_C06_DIR")
+	if len(op.Fs)%2 == 1 || op.L%2 == 1 {
+		// every other child looks like a `go test` binary (it has the testing flags): a Fatal there must end the process with
+		// status 1 all the same — that is how tests observe a real exit
+		flag.Bool("test.v", false, "")
+		flag.String("test.run", "", "")
+	}
 	w := newWorld(op.Atomics, nil)
 	w.sinkFor = func(id int) zapcore.WriteSyncer {
 		f, err := os.OpenFile(filepath.Join(dir, fmt.Sprintf("leaf%d.log", id)), os.O_CREATE|os.O_WRONLY|os.O_APPEND, 0o644)
